@@ -42,8 +42,8 @@ def one(job):
     os.makedirs(dest, exist_ok=True)
     shutil.copy(diff, os.path.join(dest, 'patch.diff'))
     shutil.copy(os.path.join(d, 'mut%s_demo.py' % n), os.path.join(dest, 'demo.py'))
-    json.dump({'property': pid, 'round': 2 if tag.endswith('b') else 1, 'summary': meta.get('summary'), 'needs': meta.get('needs'), 'files': meta.get('files'), 'rebased': meta.get('rebased'),
-               'written_by': 'independent sub-agent given only the property text and a scratch worktree' + (' (plus one-line summaries of the changes already tried)' if tag.endswith('b') else ''),
+    json.dump({'property': pid, 'round': {'b': 2, 'c': 3, 'd': 4, 'e': 5}.get(tag[3:], 1), 'summary': meta.get('summary'), 'needs': meta.get('needs'), 'files': meta.get('files'), 'rebased': meta.get('rebased'),
+               'written_by': 'independent sub-agent given only the property text and a scratch worktree' + (' (plus one-line summaries of the changes already tried)' if tag[3:] else ''),
                'what_was_run': c.get('ran'), 'demo_clean_exit': c['demo_clean_exit'], 'demo_changed_exit': c['demo_mutated_exit'],
                'suite_with_change': c['suite_summary'], 'suite_failures_are_the_baseline_set': True,
                'checks_run_against_it': caught,
